@@ -145,6 +145,25 @@ theorem async_flattened (src : Src) (lazy : Bool) (steps : List Step) (hr : runs
     (specCall cfg (.mk id sig mode (.async src lazy steps)) input own subs inv).inh = own := by
   rw [specCall_async _ _ _ _ _ _ _ _ _ _ _ hr]
   exact ⟨rfl, rfl⟩
+
+/-- SharedFuture as a source (of the pipeline, or of a pipeline a functor builds / returns): a COPY of a SharedFuture the client
+    keeps contributes the Result its promise was used with — however often copies are consumed, whenever the promise is used
+    (before the pipeline is built: `pre`; before the copy is consumed: ready at once; later: the pipeline waits for it). -/
+theorem kept_shared_source_delivers_original (p : Nat) (f : Ful) (pre : Bool) (ctx : Option Nat) (g : G) :
+    specSrc cfg (.sharedKept p f pre) none false subs = (f.result, .inl, subs) ∧
+    (match startSrc cfg (.sharedKept p f pre) ctx g with
+     | .go r _ _ g' => r = f.result ∧ g' = g
+     | .wait w _ g' => w = .promise p f ∧ g' = g
+     | .crash _ => False) := by
+  refine ⟨rfl, ?_⟩
+  cases h : g.isSet p pre <;> simp [startSrc, h]
+/- What the model does NOT state: that the kept handle ITSELF still holds the value after consumers of copies ran (C06's "the
+   value is moved out only by the provably last holder", seen from the pipeline).  The model has no handle count — the kept
+   handles are the client's objects, values are plain — so this is (a) monitored on the implementation: the harness value type
+   shows moved-from (`dead`), every program that uses kept handles ends with `obs s<j>` lines (Get() const& of the kept handle)
+   and the monitor demands the value the promise was used with; (b) tied: `tie_Core_Impl` (T2) and the verbatim check of
+   `async_done`'s body by vlib/x_dispatch.py (T1): `Done<…, true>(core.MoveOrConst<!AsyncShared>())` — always COPY from an
+   inner SharedFuture. -/
 end clauses
 
 /-! ### defect D10 (fixed: /repo 4f7ebfc)
